@@ -42,6 +42,22 @@ PURE_EXTERNAL_ROOTS = {
 }
 
 
+def _elem(r):
+    """root of the *elements* of a fresh container"""
+    return r if r[0] == "fresh" or r[0].endswith("*") else (r[0] + "*", r[1])
+
+
+def _real(r):
+    return (r[0][:-1], r[1]) if r[0].endswith("*") else r
+
+
+def _is_elem(r):
+    return r[0].endswith("*")
+
+
+CONTAINER_BUILTINS = {"list", "sorted", "set", "tuple", "frozenset", "reversed", "filter", "iter", "next", "enumerate", "zip", "dict"}
+
+
 class FuncSummary:
     def __init__(self, qual: str, mod: Module, node: ast.FunctionDef):
         self.qual = qual
@@ -60,8 +76,13 @@ class FuncSummary:
 
 
 class Effects:
-    def __init__(self, repo: Repo):
+    def __init__(self, repo: Repo, typed=None):
         self.repo = repo
+        self.typed = typed
+        self.user_callables: List[Tuple[str, ast.Call]] = []
+        self._typed_calls: Set[int] = set()
+        self.properties: Dict[str, List[str]] = {}
+        self._stored_callable_cache: Dict[Tuple[str, str], List[str]] = {}
         self.funcs: Dict[str, FuncSummary] = {}
         self.by_name: Dict[str, List[str]] = {}
         self.methods: Dict[str, List[str]] = {}
@@ -74,8 +95,26 @@ class Effects:
             # methods: module.Class.method (one level)
             if len(parts) == 3 and parts[1] in repo.classes:
                 self.methods.setdefault(parts[2], []).append(qual)
-        for fs in self.funcs.values():
+                if any(dotted(d) == "property" for d in node.decorator_list):
+                    self.properties.setdefault(parts[2], []).append(qual)
+        self.param_types: Dict[Tuple[str, str], str] = {}
+        self.fresh_ret: Dict[str, bool] = {}
+        order = sorted(self.funcs.values(), key=lambda f: f.qual.count("."))
+        for fs in order:
+            fs.assigned = set()
+        for fs in order:
             self._analyse(fs)
+        if self.typed is not None:
+            self._infer_param_types()
+        # does a function return only objects it created?  (optimistic fixpoint)
+        for _ in range(5):
+            self.user_callables = []
+            for fs in order:
+                self._analyse(fs)
+            new = {fs.qual: self._returns_fresh(fs) for fs in order}
+            if new == self.fresh_ret:
+                break
+            self.fresh_ret = new
         self._closure()
 
     # ---- per-function ----------------------------------------------------
@@ -91,9 +130,16 @@ class Effects:
                 return set(fs.local_roots[e.id]) or {("fresh", "")}
             if e.id in fs.assigned:
                 return {("fresh", "")}
+            outer = self._outer(fs)
+            if outer is not None and (e.id in outer.params or e.id in outer.assigned):
+                return {("closure", e.id)}
             return {("global", e.id)}
-        if isinstance(e, (ast.Attribute, ast.Subscript, ast.Starred)):
-            return self._roots_of(fs, e.value, depth + 1)
+        if isinstance(e, ast.Subscript):
+            if isinstance(e.slice, ast.Slice):
+                return {_elem(r) for r in self._roots_of(fs, e.value, depth + 1)}
+            return {_real(r) for r in self._roots_of(fs, e.value, depth + 1)}
+        if isinstance(e, (ast.Attribute, ast.Starred)):
+            return {_real(r) for r in self._roots_of(fs, e.value, depth + 1)}
         if isinstance(e, ast.IfExp):
             return self._roots_of(fs, e.body, depth + 1) | self._roots_of(fs, e.orelse, depth + 1)
         if isinstance(e, ast.BoolOp):
@@ -109,13 +155,137 @@ class Effects:
                 return self._roots_of(fs, e.args[1], depth + 1)
             if fn == "getattr" and e.args:
                 return self._roots_of(fs, e.args[0], depth + 1)
-            if isinstance(e.func, ast.Attribute) and e.func.attr in ("get", "setdefault", "values", "items", "keys", "__getitem__"):
-                return self._roots_of(fs, e.func.value, depth + 1)
+            if fn in CONTAINER_BUILTINS:
+                # a new container whose *elements* are those of the arguments
+                out = set()
+                for a in e.args:
+                    out |= {_elem(r) for r in self._roots_of(fs, a, depth + 1)}
+                if fn == "next":
+                    out = {_real(r) for r in out}
+                return out or {("fresh", "")}
+            if isinstance(e.func, ast.Attribute) and e.func.attr in ("get", "setdefault", "__getitem__", "pop", "popitem"):
+                return {_real(r) for r in self._roots_of(fs, e.func.value, depth + 1)}
+            if isinstance(e.func, ast.Attribute) and e.func.attr in ("values", "items", "keys", "copy"):
+                return {_elem(r) for r in self._roots_of(fs, e.func.value, depth + 1)}
+            targets = self._targets_of(fs, e)
+            if targets:
+                if all(self.fresh_ret.get(t, True) for t in targets):
+                    return {("fresh", "")}
+                out = set()
+                if isinstance(e.func, ast.Attribute):
+                    out |= self._roots_of(fs, e.func.value, depth + 1)
+                for a in list(e.args) + [k.value for k in e.keywords]:
+                    out |= self._roots_of(fs, a, depth + 1)
+                return out or {("fresh", "")}
             return {("fresh", "")}
+        if isinstance(e, (ast.GeneratorExp, ast.ListComp, ast.SetComp)):
+            # elements: provenance of the element expression with the comprehension variables bound to their sources
+            out = set()
+            for g in e.generators:
+                out |= {_elem(r) for r in self._roots_of(fs, g.iter, depth + 1)}
+            elt_names = {n.id for n in ast.walk(e.elt) if isinstance(n, ast.Name)}
+            comp_vars = {n.id for g in e.generators for n in ast.walk(g.target) if isinstance(n, ast.Name)}
+            if isinstance(e.elt, ast.Call) and not (elt_names & comp_vars):
+                return {("fresh", "")}
+            if not (elt_names & comp_vars) and not isinstance(e.elt, (ast.Name, ast.Attribute, ast.Subscript)):
+                return {("fresh", "")}
+            return out or {("fresh", "")}
         return {("fresh", "")}
+
+    def _targets_of(self, fs: FuncSummary, c: ast.Call) -> List[str]:
+        """resolved eyecite callees of a call (no side effects on fs)."""
+        if isinstance(c.func, ast.Name):
+            name = c.func.id
+            if name in fs.params:
+                if fs.params and name == fs.params[0] and self._is_classmethod(fs):
+                    return []  # cls(...): a fresh instance
+                d = self._param_default(fs, name)
+                return [f"{fs.mod.name}.{d}"] if d and f"{fs.mod.name}.{d}" in self.funcs else []
+            t = self._resolve_name(fs, name)
+            if t:
+                # constructors return the fresh object under construction
+                if all(x.endswith(".__init__") or x.endswith(".__post_init__") for x in t):
+                    return []
+                return t
+            nested = f"{fs.qual}.{name}"
+            if nested in self.funcs:
+                return [nested]
+            sib = self._enclosing_def(fs, name)
+            return [sib] if sib else []
+        if isinstance(c.func, ast.Attribute):
+            meth = c.func.attr
+            recv = c.func.value
+            if isinstance(recv, ast.Call) and dotted(recv.func) == "super":
+                return list(self.methods.get(meth, []))
+            tcls, known = self._recv_class(fs, recv)
+            if tcls is not None:
+                cands = self._methods_for(fs, recv, meth, [])
+                if cands:
+                    return cands
+                return self._stored_callable(tcls, meth)
+            if known:
+                return []
+            root = dotted(recv)
+            rootname = root.split(".")[0] if root else None
+            if rootname and rootname in PURE_EXTERNAL_ROOTS and rootname not in fs.params:
+                return []
+            if meth in ("get", "update", "items", "keys", "values", "append", "pop", "strip", "lower", "upper", "replace", "split", "join",
+                        "format", "startswith", "endswith", "isdigit", "rstrip", "lstrip", "group", "groups", "span", "start", "end", "groupdict"):
+                return []
+            return list(self.methods.get(meth, []))
+        return []
+
+    def _returns_fresh(self, fs: FuncSummary) -> bool:
+        vals = []
+        for n in walk_local(fs.node):
+            if isinstance(n, ast.Return) and n.value is not None:
+                vals.append(n.value)
+            elif isinstance(n, ast.Yield) and n.value is not None:
+                vals.append(n.value)
+            elif isinstance(n, ast.YieldFrom):
+                vals.append(n.value)
+        for v in vals:
+            parts = list(v.elts) if isinstance(v, ast.Tuple) else [v]
+            for x in parts:
+                if any(r[0] != "fresh" for r in self._roots_of(fs, x)):
+                    return False
+        return True
+
+    def _is_memo_store(self, fs: FuncSummary, stmt: ast.AST, target: ast.Attribute) -> bool:
+        """`if not hasattr(self, "_x"): ...; self._x = <expr>` -- an idempotent
+        memo: the store is inside the body of a `not hasattr(obj, "<attr>")`
+        test for the very attribute stored."""
+        cur = stmt
+        while cur is not None and cur is not fs.node:
+            par = getattr(cur, "parent", None)
+            if isinstance(par, ast.If) and cur in par.body:
+                t = par.test
+                if (isinstance(t, ast.UnaryOp) and isinstance(t.op, ast.Not) and isinstance(t.operand, ast.Call)
+                        and dotted(t.operand.func) == "hasattr" and len(t.operand.args) == 2
+                        and norm(t.operand.args[0]) == norm(target.value)
+                        and isinstance(t.operand.args[1], ast.Constant) and t.operand.args[1].value == target.attr):
+                    return True
+            cur = par
+        return False
+
+    def _enclosing_def(self, fs: FuncSummary, name: str) -> Optional[str]:
+        """qualname of a function `name` defined in an enclosing function scope."""
+        q = fs.qual
+        while "." in q:
+            q = q.rsplit(".", 1)[0]
+            cand = f"{q}.{name}"
+            if cand in self.funcs and q in self.funcs:
+                return cand
+        return None
+
+    def _outer(self, fs: FuncSummary) -> Optional[FuncSummary]:
+        q = fs.qual.rsplit(".", 1)[0]
+        o = self.funcs.get(q)
+        return o if o is not None and o.node is not fs.node else None
 
     def _analyse(self, fs: FuncSummary):
         node = fs.node
+        fs.writes, fs.calls, fs.unknown_calls, fs.local_roots = [], [], [], {}
         fs.assigned = set()
         for n in walk_local(node):
             if isinstance(n, ast.Name) and isinstance(n.ctx, (ast.Store, ast.Del)):
@@ -150,6 +320,8 @@ class Effects:
                             binds.append((it.optional_vars, it.context_expr))
                 for t, v in binds:
                     roots = {r for r in self._roots_of(fs, v) if r[0] != "fresh"}
+                    if isinstance(n, (ast.For, ast.comprehension)) or isinstance(t, (ast.Tuple, ast.List)):
+                        roots = {_real(r) for r in roots}  # iterating / unpacking yields the elements themselves
                     for nm in ast.walk(t):
                         if isinstance(nm, ast.Name) and isinstance(nm.ctx, ast.Store) and nm.id not in fs.params:
                             cur = fs.local_roots.setdefault(nm.id, set())
@@ -176,13 +348,31 @@ class Effects:
                     flat.append(t)
             for t in flat:
                 if isinstance(t, (ast.Attribute, ast.Subscript)):
+                    how = "store " + norm(t)
+                    if isinstance(t, ast.Attribute) and self._is_memo_store(fs, n, t):
+                        how = "memo " + norm(t)
                     for r in self._roots_of(fs, t.value):
-                        if r[0] != "fresh":
-                            fs.writes.append((r, n, "store " + norm(t)))
+                        if r[0] != "fresh" and not _is_elem(r):
+                            fs.writes.append((r, n, how))
                 elif isinstance(t, ast.Name) and t.id in fs.global_decl:
                     fs.writes.append((("global", t.id), n, "global rebinding"))
             if isinstance(n, ast.Call):
                 self._call(fs, n)
+            elif isinstance(n, ast.Attribute) and isinstance(n.ctx, ast.Load) and n.attr in self.properties:
+                par = getattr(n, "parent", None)
+                if not (isinstance(par, ast.Call) and par.func is n):
+                    cands = self._methods_for(fs, n.value, n.attr, self.properties[n.attr])
+                    for rr in self._roots_of(fs, n.value) or {("fresh", "")}:
+                        fake = ast.Call(func=n, args=[], keywords=[])
+                        ast.copy_location(fake, n)
+                        fs.calls.append((cands, fake, [], {}, rr))
+            elif isinstance(n, ast.Name) and isinstance(n.ctx, ast.Load) and f"{fs.qual}.{n.id}" in self.funcs:
+                par = getattr(n, "parent", None)
+                if not (isinstance(par, ast.Call) and par.func is n):
+                    # nested function passed as a callback: assume it is called
+                    fake = ast.Call(func=n, args=[], keywords=[])
+                    ast.copy_location(fake, n)
+                    fs.calls.append(([f"{fs.qual}.{n.id}"], fake, [], {}, None))
 
     def _call(self, fs: FuncSummary, c: ast.Call):
         fn = dotted(c.func)
@@ -198,12 +388,21 @@ class Effects:
         if isinstance(c.func, ast.Name):
             name = c.func.id
             if name in fs.params:
+                if fs.params and name == fs.params[0] and self._is_classmethod(fs):
+                    # cls(...): constructs an instance of the class or a subclass
+                    cls = fs.qual.split(".")[1]
+                    targets = []
+                    for sub in self.repo.subclasses(cls):
+                        targets += self._ctor(sub) or []
+                    if targets:
+                        fs.calls.append((sorted(set(targets)), c, argroots, kwroots, None))
+                    return
                 # callable parameter: resolve through its default, if any
                 d = self._param_default(fs, name)
                 if d and self.repo.func(f"{fs.mod.name}.{d}") is not None:
                     fs.calls.append(([f"{fs.mod.name}.{d}"], c, argroots, kwroots, None))
                 else:
-                    fs.unknown_calls.append(c)
+                    self.user_callables.append((fs.qual, c))
                 return
             targets = self._resolve_name(fs, name)
             if targets is not None:
@@ -212,11 +411,23 @@ class Effects:
                 return
             if name in PURE_BUILTINS or name in PURE_EXTERNAL_ROOTS:
                 return
+            sib = self._enclosing_def(fs, name)
+            if sib is not None and name not in fs.assigned:
+                fs.calls.append(([sib], c, argroots, kwroots, None))
+                return
             if name in fs.assigned:
                 # local callable (nested def / lambda / partial): nested defs
                 nested = f"{fs.qual}.{name}"
                 if nested in self.funcs:
                     fs.calls.append(([nested], c, argroots, kwroots, None))
+                    return
+                t = self._local_callable_targets(fs, name)
+                if t is not None:
+                    targets, user = t
+                    if targets:
+                        fs.calls.append((targets, c, argroots, kwroots, ("param", fs.params[0]) if fs.params and fs.params[0] in ("self", "cls") else None))
+                    if user:
+                        self.user_callables.append((fs.qual, c))
                     return
             fs.unknown_calls.append(c)
             return
@@ -240,6 +451,31 @@ class Effects:
                     fs.calls.append((cands, c, argroots, kwroots, None))
                     return
             recv_roots = self._roots_of(fs, recv)
+            tcls, tknown = self._recv_class(fs, recv)
+            if tcls is not None:
+                cands = self._methods_for(fs, recv, meth, self.methods.get(meth, []))
+                if cands:
+                    self._typed_calls.add(id(c))
+                    for rr in recv_roots:
+                        fs.calls.append((list(cands), c, argroots, kwroots, rr))
+                    return
+                stored = self._stored_callable(tcls, meth)
+                if stored:
+                    fs.calls.append((stored, c, argroots, kwroots, None))
+                    return
+                # attribute of an eyecite object that is not a method: a field holding a builtin container
+                if meth in MUTATORS:
+                    for r in recv_roots:
+                        if r[0] != "fresh" and not _is_elem(r):
+                            fs.writes.append((r, c, f"mutator .{meth}()"))
+                return
+            if tknown:
+                # receiver has a known non-eyecite type (builtin / third-party): method-table semantics
+                if meth in MUTATORS:
+                    for r in recv_roots:
+                        if r[0] != "fresh" and not _is_elem(r):
+                            fs.writes.append((r, c, f"mutator .{meth}()"))
+                return
             cands = self.methods.get(meth, [])
             if cands and meth not in ("get", "update", "items", "keys", "values", "append", "pop", "strip", "lower", "upper", "replace", "split", "join", "format", "startswith", "endswith", "isdigit"):
                 for rr in recv_roots:
@@ -247,10 +483,154 @@ class Effects:
                 return
             if meth in MUTATORS:
                 for r in recv_roots:
-                    if r[0] != "fresh":
+                    if r[0] != "fresh" and not _is_elem(r):
                         fs.writes.append((r, c, f"mutator .{meth}()"))
             return
         fs.unknown_calls.append(c)
+
+    def _infer_param_types(self):
+        """Unannotated parameters: if every resolved call site passes an
+        expression of one eyecite class, use that class as the parameter type
+        (one level of call-site summaries)."""
+        from .typed import eyecite_class
+
+        seen: Dict[Tuple[str, str], Set[Optional[str]]] = {}
+        for q, fs in self.funcs.items():
+            for targets, call, argroots, kwroots, recv_root in fs.calls:
+                if not isinstance(call.func, ast.Name) and id(call) not in self._typed_calls:
+                    continue  # name-based fallback: too imprecise to learn from
+                for t in targets:
+                    cs = self.funcs.get(t)
+                    if cs is None or t.endswith(".__init__") or t.endswith(".__post_init__"):
+                        continue
+                    bound = not isinstance(call.func, ast.Name) and len(t.split(".")) >= 3 and t.split(".")[1] in self.repo.classes \
+                        and not self._is_static(cs)
+                    ps = cs.params[1:] if bound else cs.params
+                    for i, a in enumerate(getattr(call, "args", [])):
+                        if i < len(ps):
+                            seen.setdefault((t, ps[i]), set()).add(eyecite_class(self.typed.type_of(fs.mod, a)))
+                    for k in getattr(call, "keywords", []):
+                        if k.arg in ps:
+                            seen.setdefault((t, k.arg), set()).add(eyecite_class(self.typed.type_of(fs.mod, k.value)))
+        for key, types in seen.items():
+            if len(types) == 1 and None not in types:
+                fs = self.funcs[key[0]]
+                a = next((x for x in fs.node.args.args + fs.node.args.kwonlyargs if x.arg == key[1]), None)
+                if a is not None and a.annotation is None:
+                    self.param_types[key] = next(iter(types))
+
+    @staticmethod
+    def _is_static(cs: "FuncSummary") -> bool:
+        return any(dotted(d) == "staticmethod" for d in cs.node.decorator_list)
+
+    @staticmethod
+    def _is_classmethod(cs: "FuncSummary") -> bool:
+        return any(dotted(d) == "classmethod" for d in cs.node.decorator_list)
+
+    def _recv_class(self, fs: FuncSummary, recv: ast.AST):
+        """(eyecite class name | None, type-known?)"""
+        if self.typed is None:
+            return None, False
+        from .typed import eyecite_class
+
+        if isinstance(recv, ast.Name) and (fs.qual, recv.id) in self.param_types:
+            return self.param_types[(fs.qual, recv.id)], True
+        t = self.typed.type_of(fs.mod, recv)
+        if t is None or t in ("Any", "builtins.object", "object") or t.startswith("Any"):
+            return None, False
+        cls = eyecite_class(t)
+        if cls is not None and cls in self.repo.classes:
+            return cls, True
+        if "eyecite." in t:
+            return None, False  # union of eyecite classes etc.: fall back to name-based
+        return None, True
+
+    def _methods_for(self, fs: FuncSummary, recv: ast.AST, meth: str, fallback: List[str]) -> List[str]:
+        cls, _ = self._recv_class(fs, recv)
+        if cls is None:
+            return list(fallback)
+        out = []
+        found = self.repo.find_method(cls, meth)
+        if found:
+            c, fn = found
+            out.append(f"{self.repo.classes[c].module.name}.{c}.{meth}")
+        for sub in self.repo.subclasses(cls):
+            if sub != cls and meth in self.repo.classes[sub].methods:
+                out.append(f"{self.repo.classes[sub].module.name}.{sub}.{meth}")
+        return [q for q in out if q in self.funcs]
+
+    def _stored_callable(self, cls: str, field: str) -> List[str]:
+        """targets of `obj.<field>(...)` where <field> is a dataclass field of
+        cls holding a callable: every `X.meth` passed for it at a construction
+        site of cls anywhere in the package."""
+        key = (cls, field)
+        if key in self._stored_callable_cache:
+            return self._stored_callable_cache[key]
+        out: List[str] = []
+        ci = self.repo.classes.get(cls)
+        fields = ci.fields() if ci else []
+        if field in fields:
+            idx = fields.index(field)
+            for m in self.repo.modules.values():
+                for n in ast.walk(m.tree):
+                    if isinstance(n, ast.Call) and dotted(n.func) and dotted(n.func).split(".")[-1] == cls:
+                        arg = None
+                        if idx < len(n.args):
+                            arg = n.args[idx]
+                        for k in n.keywords:
+                            if k.arg == field:
+                                arg = k.value
+                        if isinstance(arg, ast.Attribute) and isinstance(arg.value, ast.Name) and arg.value.id in self.repo.classes:
+                            found = self.repo.find_method(arg.value.id, arg.attr)
+                            if found:
+                                q = f"{self.repo.classes[found[0]].module.name}.{found[0]}.{arg.attr}"
+                                if q in self.funcs and q not in out:
+                                    out.append(q)
+        self._stored_callable_cache[key] = out
+        return out
+
+    def _local_callable_targets(self, fs: FuncSummary, name: str):
+        """targets of a call through a local variable: (qualnames, may-be-user-callable)"""
+        targets: List[str] = []
+        user = False
+        vals: List[ast.AST] = []
+        for n in walk_local(fs.node):
+            if isinstance(n, ast.Assign) and any(isinstance(t, ast.Name) and t.id == name for t in n.targets):
+                vals.append(n.value)
+            elif isinstance(n, ast.AnnAssign) and isinstance(n.target, ast.Name) and n.target.id == name and n.value is not None:
+                vals.append(n.value)
+        if not vals:
+            return None
+        todo = list(vals)
+        while todo:
+            v = todo.pop()
+            if isinstance(v, ast.IfExp):
+                todo += [v.body, v.orelse]
+            elif isinstance(v, ast.Name):
+                if v.id in fs.params or any(r[0] == "param" for r in fs.local_roots.get(v.id, ())):
+                    user = True
+                else:
+                    t = self._resolve_name(fs, v.id)
+                    if t is None:
+                        return None
+                    targets += t
+            elif isinstance(v, ast.Attribute) and isinstance(v.value, ast.Name) and v.value.id in ("self", "cls"):
+                cands = [q for q in self.methods.get(v.attr, []) if q.startswith(fs.qual.rsplit(".", 1)[0] + ".")] or self.methods.get(v.attr, [])
+                if not cands:
+                    return None
+                targets += cands
+            elif isinstance(v, ast.Subscript) and isinstance(v.value, ast.Name):
+                d = fs.mod.toplevel_assign(v.value.id)
+                if isinstance(d, ast.Dict) and all(isinstance(x, ast.Name) for x in d.values):
+                    for x in d.values:
+                        t = self._resolve_name(fs, x.id)
+                        if t:
+                            targets += t
+                else:
+                    return None
+            else:
+                return None
+        return targets, user
 
     def _param_default(self, fs: FuncSummary, name: str) -> Optional[str]:
         a = fs.node.args
@@ -325,10 +705,34 @@ class Effects:
                             continue
                         is_method = len(t.split(".")) >= 3 and t.split(".")[1] in self.repo.classes
                         is_ctor = t.endswith(".__init__") or t.endswith(".__post_init__")
+                        static = self._is_static(cs)
+                        clsm = self._is_classmethod(cs)
                         for (root, origin, line, how) in list(self.tw[t]):
                             new = None
                             if root[0] == "global":
                                 new = {(root, origin, line, how)}
+                            elif root[0] == "closure":
+                                # free variable of a nested function: a local / parameter of the enclosing function
+                                new = set()
+                                if t.startswith(q + "."):
+                                    nm = root[1]
+                                    if nm in fs.params:
+                                        new.add((("param", nm), origin, line, how))
+                                    elif nm in fs.local_roots:
+                                        for r2 in fs.local_roots[nm]:
+                                            if r2[0] != "fresh":
+                                                new.add((r2, origin, line, how))
+                                    elif nm not in fs.assigned:
+                                        new.add((("closure", nm), origin, line, how))
+                            elif static and is_method and not isinstance(call.func, ast.Name):
+                                pname = root[1]
+                                new = set()
+                                if pname in cs.params:
+                                    idx = cs.params.index(pname)
+                                    rr = argroots[idx] if idx < len(argroots) else kwroots.get(pname, set())
+                                    for r2 in rr or []:
+                                        if r2 and r2[0] != "fresh":
+                                            new.add((_real(r2), origin, line, how))
                             else:
                                 pname = root[1]
                                 new = set()
@@ -337,7 +741,7 @@ class Effects:
                                     if is_method and not isinstance(call.func, ast.Name):
                                         # bound call: param 0 is the receiver
                                         if idx == 0:
-                                            rr = [recv_root] if recv_root else []
+                                            rr = [recv_root] if (recv_root and not clsm) else []
                                         else:
                                             rr = argroots[idx - 1] if idx - 1 < len(argroots) else kwroots.get(pname, set())
                                     elif is_ctor:
@@ -349,7 +753,7 @@ class Effects:
                                         rr = argroots[idx] if idx < len(argroots) else kwroots.get(pname, set())
                                     for r2 in rr or []:
                                         if r2 and r2[0] != "fresh":
-                                            new.add((r2, origin, line, how))
+                                            new.add((_real(r2), origin, line, how))
                             for item in new:
                                 if item not in cur:
                                     cur.add(item)
